@@ -107,6 +107,7 @@ func checkC01(c *Ctx) error {
 		o := gen.DefaultOpts()
 		o.MainPkg = i%97 == 5
 		o.HostileAlias = i%5 == 1 // alias names taken from the collision space
+		o.StdPkgs = i%3 == 0 // the packages the template imports for itself are also used by the configuration
 		conf := gen.Behaviour(r, o)
 		var flags []string
 		if i%7 == 3 {
